@@ -1,0 +1,46 @@
+//go:build verif
+
+package verifhooks
+
+import (
+	"context"
+	"time"
+
+	"github.com/atlassian/gostatsd"
+	"github.com/atlassian/gostatsd/internal/flush"
+	"github.com/atlassian/gostatsd/internal/lexer"
+	"github.com/atlassian/gostatsd/internal/pool"
+	"github.com/atlassian/gostatsd/internal/util"
+)
+
+// Lexer wraps the internal line lexer together with the metric pool it needs.
+type Lexer struct {
+	l lexer.Lexer
+}
+
+// NewLexer returns a lexer with its own metric pool.
+func NewLexer(estimatedTags int) *Lexer {
+	return &Lexer{l: lexer.Lexer{MetricPool: pool.NewMetricPool(estimatedTags)}}
+}
+
+// Run lexes one line (without the trailing newline). The input may be modified in place.
+func (l *Lexer) Run(line []byte, namespace string) (*gostatsd.Metric, *gostatsd.Event, error) {
+	return l.l.Run(line, namespace)
+}
+
+// Coordinator is the internal flush coordinator interface.
+type Coordinator = flush.Coordinator
+
+// Flushable is the internal flushable interface.
+type Flushable = flush.Flushable
+
+// NewFlushCoordinator returns a real (manual flush) coordinator.
+func NewFlushCoordinator() Coordinator {
+	return flush.NewFlushCoordinator()
+}
+
+// NewAlignedTicker starts an aligned ticker using the clock in ctx.
+func NewAlignedTicker(ctx context.Context, interval, offset time.Duration) (<-chan time.Time, func()) {
+	at := util.NewAlignedTickerWithContext(ctx, interval, offset)
+	return at.C, at.Stop
+}
